@@ -25,6 +25,37 @@ add("C05", "exploration", EXPL,
     "Virtual-clock exploration of deadline classes against replies placed at D-2..D+1 ms, queueing delays and stalls; checks never-early, not-late (2 ms slack) and reply-before-deadline-wins.",
     "Timer granularity 1 ms modelled as 2 ms slack; clock read through hook H1.", "DESIGN.md §5 C05")
 
+add("C03", "exploration", EXPL,
+    "Seeded exploration of abandonment at every suspension point of a call (before first poll, after k polls, at a time, request on the wire, reply queued, reply read) against capacity/buffer 1-3 and stalled sinks, with preemption inside the call guard's Drop (hook H2); per-id sink sequence in {eps, R, R.C} and the cancel obligation at every writable idle point.",
+    "Cancel obligations are evaluated at idle points (quiescence with the clock frozen), not at poll ends, so tokio's cooperative-budget yields cannot raise alarms.", "DESIGN.md §5 C03")
+add("C04", "exploration", EXPL,
+    "Seeded exploration of the Cancel's position relative to handler start, completion, response buffering and write on the real BaseChannel/Requests/execute path with scripted handlers that log every poll and their drop; checks no progress / no response / not counted after a cancel and that unrelated cancels abort nothing. (Chains of services: see P-e2e in DESIGN.md.)",
+    "Handler polls already in progress when the cancel is processed at a preemption point may run to their end; their result must not be transmitted.", "DESIGN.md §5 C04")
+add("C06", "exploration", EXPL,
+    "Virtual-clock exploration of server-side deadlines (expired on arrival .. 50 ms) against handlers finishing at D-2..D+1 or never, with and without a per-channel limit and with stalled sinks; never-early, not-late at idle points (2 ms slack), nothing transmitted after expiry, no collateral aborts.",
+    "One genuine defect is recorded as a known finding (limit + not-ready sink defers expiry); any other late/early abort is still reported.", "DESIGN.md §5 C06, §7 D6")
+add("C08", "exploration", EXPL,
+    "Seeded exploration with a scripted peer sending fresh ids, duplicates while in flight, ids reused after their response, cancels and close against the real channel; counts handler offers and responses per incarnation with an interval (definitely/possibly tracked) model.",
+    "Id reuse after cancel/expiry with a still-buffered response is outside the property's quantifier and excluded from response attribution.", "DESIGN.md §5 C08")
+add("C10", "exploration", EXPL,
+    "Every client run ends by dropping the last handle (and a share of runs do it, or a peer EOF, mid-run): cancels owed must precede the first poll_close, nothing is written after it, the dispatch returns Ok; on peer EOF dispatch and calls end within the same idle window. Every server run ends with inbound EOF: the stream may not end while a request is in flight or a response unflushed, and must end at the first idle point after.",
+    "Exploration over seeded drop/EOF points, not enumeration of every point.", "DESIGN.md §5 C10")
+add("C11", "exploration", EXPL,
+    "In-flight and timer counts (hook H3) sampled after every dispatch / request-stream poll: client never above max_in_flight (also derived from the wire), server count within the interval model at every sample, and zero entries and zero timers at every idle point where all calls / yielded requests have ended, with the clock stopped.",
+    "Server-side consequences of the known C06 finding (limit + not-ready sink) are listed as known findings.", "DESIGN.md §5 C11")
+add("C12", "exploration", EXPL,
+    "Limits 0-3 on the real MaxRequests over BaseChannel with bursts, cancels, completion orders and sink stalls; interval model: never yielded with L definitely in flight, refused only if L were possibly in flight when read, exactly one throttle response, never executed.",
+    "Expiry and guard-drop processing are not observable, so such requests stay in the upper bound (no alarm from an unprovable stale count).", "DESIGN.md §5 C12, §7 D8")
+add("C14", "exploration", EXPL,
+    "A contract monitor inside the simulated transport checks every Sink call of the client dispatch, the server channel and the throttler: readiness token before each write, nothing after close/failure, no Pending with unflushed items, at most 64 not-ready results per poll; capacities 1,2,3,inf, coupled and independent readiness, stalls.",
+    "Monitor state machine is DESIGN.md A.3.", "DESIGN.md §5 C14, §7 D2")
+add("C16", "exploration", EXPL,
+    "Well-typed boundary-valued deadlines from local callers (client dispatch) and from the peer (server channel), with no subscriber, a formatting subscriber and the OpenTelemetry SDK layer installed; any panic in any task is a violation.",
+    "Byte-level malformed input to the framed decoders is part of the P-bytes profile (DESIGN.md); this revision covers well-typed messages.", "DESIGN.md §5 C16, §7 D5/D7")
+add("C18", "exploration", EXPL,
+    "Distinct caller-supplied trace ids and sampling decisions per call under concurrency and cancellation: transmitted trace id = caller's, fresh span per hop, Cancel carries the Request's transmitted context, handler observes what was transmitted.",
+    "Span ids come from thread_rng and are compared only for (in)equality.", "DESIGN.md §5 C18")
+
 NOT_YET = {}
 NOT_APPLICABLE = {
     "C17": "quantifies over programs (service definitions) and is decided at macro-expansion/compile time; the generated glue has no schedule, clock, fault or interleaving of its own for a simulator to vary",
